@@ -49,10 +49,14 @@ type C11Op struct {
 type C11Case struct {
 	Router string  `json:"router"`
 	Ops    []C11Op `json:"ops"`
+	// OptionsFilter installs Container.OPTIONSFilter on both containers; OPTIONS probes then show
+	// what the framework computes from the registered routes at that moment.
+	OptionsFilter bool `json:"options_filter,omitempty"`
 }
 
 func genC11(t *rapid.T) C11Case {
 	c := C11Case{Router: rapid.SampledFrom([]string{model.Curly, model.JSR311}).Draw(t, "router")}
+	c.OptionsFilter = rapid.Bool().Draw(t, "optionsfilter")
 	pool := c11SafeRoots
 	if rapid.IntRange(0, 3).Draw(t, "conflictpool") == 0 {
 		pool = c11Roots
@@ -192,6 +196,13 @@ func checkC11(c C11Case) (vs []*Violation) {
 	ct := restful.NewContainer()
 	if c.Router == model.JSR311 {
 		ct.Router(restful.RouterJSR311{})
+	}
+	if c.OptionsFilter {
+		ct.Filter(ct.OPTIONSFilter)
+	}
+	probeMethods := []string{"GET", "POST"}
+	if c.OptionsFilter {
+		probeMethods = append(probeMethods, "OPTIONS")
 	}
 	svcs := map[int]*c11Svc{}
 	var order []string // registration order: "s<idx>" / "h<pattern>"
@@ -349,6 +360,9 @@ func checkC11(c C11Case) (vs []*Violation) {
 		if c.Router == model.JSR311 {
 			fresh.Router(restful.RouterJSR311{})
 		}
+		if c.OptionsFilter {
+			fresh.Filter(fresh.OPTIONSFilter)
+		}
 		var fpan interface{}
 		func() {
 			defer func() { fpan = recover() }()
@@ -382,7 +396,7 @@ func checkC11(c C11Case) (vs []*Violation) {
 		}
 		for _, via := range []string{harness.ViaServe, harness.ViaDispatch} {
 			for _, p := range probes {
-				for _, m := range []string{"GET", "POST"} {
+				for _, m := range probeMethods {
 					a := c11Probe(ct, m, p, via)
 					b := c11Probe(fresh, m, p, via)
 					if a != b {
